@@ -77,7 +77,7 @@ def build_harness():
 
 # which regenerated tables each property's model, theorems or generators use (enums: every Lean file)
 GEN_DEPENDS = {
-    'C01': ['enums', 'parse'], 'C02': ['enums', 'lex', 'parse'], 'C03': ['enums', 'lex', 'parse'], 'C04': ['enums', 'lex', 'parse', ('RuntimeRefineCast', 'Garnish.Props.RuntimeRefine', r'^(C01_refine_(step|handler)_applyType|handlerSim_of_refinesCast)$'), ('C19Store', 'Garnish.Props.C19Store', r'^(basicStore_|decodes_of_unfold$)'), ('SourceProps5', 'Garnish.Props.SourceProps', r'^C01_'), ('RuntimeRefineSimple', 'Garnish.Props.RuntimeRefine', r'^C01_'), ('RuntimeRefineSimple2', 'Garnish.Props.RuntimeRefine', r'^C01_'), ('C01TextStoreSimple', 'Garnish.Props.C01TextStore', r'^C01_'), ('RuntimeRefineSimpleOn', 'Garnish.Props.RuntimeRefine', r'^C01_'), ('RuntimeRefineOn', 'Garnish.Props.RuntimeRefine', r'^C01_'), ('C01TextStoreOn', 'Garnish.Props.C01TextStore', r'^C01_'), ('RuntimeRefineOn1', 'Garnish.Props.RuntimeRefine', r'^C01_'), ('RuntimeRefineOn1', 'Garnish.Props.C01TextStore', r'^C01_'), ('RuntimeRefineOn2', 'Garnish.Props.RuntimeRefine', r'^C01_'), ('RuntimeRefineOn2', 'Garnish.Props.C01TextStore', r'^C01_'), ('C19StoreOn', 'Garnish.Props.C19StoreOn', r'^(basicStore_|basic_)'), ('RuntimeRefineOn3', 'Garnish.Props.RuntimeRefine', r'^C01_'), ('RuntimeRefineOn3', 'Garnish.Props.C01TextStore', r'^C01_'), ('RuntimeRefineOn4', 'Garnish.Props.RuntimeRefine', r'^C01_'), ('RuntimeRefineOn4', 'Garnish.Props.C01TextStore', r'^C01_')],
+    'C01': ['enums', 'parse'], 'C02': ['enums', 'lex', 'parse'], 'C03': ['enums', 'lex', 'parse'], 'C04': ['enums', 'lex', 'parse', ('RuntimeRefineCast', 'Garnish.Props.RuntimeRefine', r'^(C01_refine_(step|handler)_applyType|handlerSim_of_refinesCast)$'), ('C19Store', 'Garnish.Props.C19Store', r'^(basicStore_|decodes_of_unfold$)'), ('SourceProps5', 'Garnish.Props.SourceProps', r'^C01_'), ('RuntimeRefineSimple', 'Garnish.Props.RuntimeRefine', r'^C01_'), ('RuntimeRefineSimple2', 'Garnish.Props.RuntimeRefine', r'^C01_'), ('C01TextStoreSimple', 'Garnish.Props.C01TextStore', r'^C01_'), ('RuntimeRefineSimpleOn', 'Garnish.Props.RuntimeRefine', r'^C01_'), ('RuntimeRefineOn', 'Garnish.Props.RuntimeRefine', r'^C01_'), ('C01TextStoreOn', 'Garnish.Props.C01TextStore', r'^C01_'), ('RuntimeRefineOn1', 'Garnish.Props.RuntimeRefine', r'^C01_'), ('RuntimeRefineOn1', 'Garnish.Props.C01TextStore', r'^C01_'), ('RuntimeRefineOn2', 'Garnish.Props.RuntimeRefine', r'^C01_'), ('RuntimeRefineOn2', 'Garnish.Props.C01TextStore', r'^C01_'), ('C19StoreOn', 'Garnish.Props.C19StoreOn', r'^(basicStore_|basic_)'), ('RuntimeRefineOn3', 'Garnish.Props.RuntimeRefine', r'^C01_'), ('RuntimeRefineOn3', 'Garnish.Props.C01TextStore', r'^C01_'), ('RuntimeRefineOn4', 'Garnish.Props.RuntimeRefine', r'^C01_'), ('RuntimeRefineOn4', 'Garnish.Props.C01TextStore', r'^C01_'), ('RuntimeRefineOnBalanced', 'Garnish.Props.RuntimeRefine', r'^C01_'), ('C01TextStoreOnBalanced', 'Garnish.Props.C01TextStore', r'^C01_')],
     'C05': ['enums', 'parse'], 'C06': ['enums'], 'C07': ['enums'], 'C08': ['enums'], 'C09': ['enums'], 'C10': ['enums', 'runtime', ('SourceProps', 'Garnish.Props.SourceProps', r'^C05_')],
     'C11': ['enums'], 'C12': ['enums'], 'C13': ['enums', 'lex'], 'C14': ['enums', 'lex'], 'C15': ['enums'], 'C16': ['enums', ('RuntimeRefineInternals', 'Garnish.Props.RuntimeRefine', r'^C11_'), ('SourceProps5', 'Garnish.Props.SourceProps', r'^C11_'), ('C14Lex', 'Garnish.Props.C14Lex', r'^C11_')],
     'C17': ['enums'], 'C18': ['enums', 'lex', 'parse'], 'C19': ['enums'], 'C20': ['enums', 'parse', ('SourceProps', 'Garnish.Props.SourceProps', r'^C17_'), ('RuntimeRefineTrace', 'Garnish.Props.RuntimeRefine', r'^C17_'), ('RuntimeRefineRunTrace', 'Garnish.Props.RuntimeRefine', r'^C17_'), ('RuntimeRefineRunTrace', 'Garnish.Props.C01TextStore', r'^C17_')],
@@ -89,7 +89,7 @@ AUDIT_EXTRA = {
     'C19': [('C19Store', 'Garnish.Props.C19Store', None), ('C19StoreOn', 'Garnish.Props.C19StoreOn', None)],
     'C15': [('C15Reach', 'Garnish.Props.C15Reach', None), ('RuntimeRefineSimple2', 'Garnish.Props.RuntimeRefine', r'^C15_'), ('RuntimeRefineSimple3', 'Garnish.Props.RuntimeRefine', r'^C15_')],
     'C01': [('C01Compile', 'Garnish.Props.C01', None), ('C01Build', 'Garnish.Props.C01Build', None), ('C01Source', 'Garnish.Props.C01Source', None), ('C02Numbered', 'Garnish.Props.C02Numbered', r'^C01_'), ('C01Text', 'Garnish.Props.C01Text', None), ('C01Blocks', 'Garnish.Props.C01Blocks', None), ('RuntimeRefineStep', 'Garnish.Props.RuntimeRefine', r'^C01_'), ('C02Support', 'Garnish.Props.C02Support', r'^C01_'), ('SourceProps', 'Garnish.Props.SourceProps', r'^C01_'), ('RuntimeRefineStepFull', 'Garnish.Props.RuntimeRefine', r'^C01_'), ('RuntimeRefineRun', 'Garnish.Props.RuntimeRefine', r'^C01_'), ('C01TextStore', 'Garnish.Props.C01TextStore', None)],
-    'C06': [('C06Static', 'Garnish.Props.C06', None), ('RuntimeRefineData', 'Garnish.Props.RuntimeRefine', r'^C06_'), ('SourceProps', 'Garnish.Props.SourceProps', r'^C06_'), ('RuntimeRefineSimple2', 'Garnish.Props.RuntimeRefine', r'^C06_')],
+    'C06': [('C06Static', 'Garnish.Props.C06', None), ('RuntimeRefineData', 'Garnish.Props.RuntimeRefine', r'^C06_'), ('SourceProps', 'Garnish.Props.SourceProps', r'^C06_'), ('RuntimeRefineSimple2', 'Garnish.Props.RuntimeRefine', r'^C06_'), ('RuntimeRefineOnBalanced', 'Garnish.Props.RuntimeRefine', r'^C06_')],
     'C10': [('C01Compile', 'Garnish.Props.C01', r'^(C10_|C01_compile_correct$)'), ('C10Compile', 'Garnish.Props.C10', None), ('RuntimeRefineLogic', 'Garnish.Props.RuntimeRefine', r'^C10_'), ('SourceProps', 'Garnish.Props.SourceProps', r'^C10_')],
     'C17': [('C01Compile', 'Garnish.Props.C01', r'^(C17_|C01_compile_correct$|compile_env$)'), ('RuntimeRefineAccess', 'Garnish.Props.RuntimeRefine', r'^C17_'), ('RuntimeRefineApply', 'Garnish.Props.RuntimeRefine', r'^C17_')],
     'C11': [('C11Refine', 'Garnish.Props.C11Refine', None)],
